@@ -170,14 +170,14 @@ def run_mc(wd, module, constants, invariants, workers=4, timeout=1500, props=Non
     return cases, stats
 
 
-def run_trace(wd, trace, name, timeout=1500):
+def run_trace(wd, trace, name, timeout=1500, explain=True):
     """Stage C: validate one recorded trace; returns (judgements, stats)."""
     out = os.path.join(wd, name + ".tlcout")
     meta = os.path.join(wd, "meta-" + name)
     cmd = tlc_cmd(1) + ["-metadir", meta, "-config", os.path.join(SPEC, "TraceTau.cfg"),
                         os.path.join(SPEC, "TraceTau.tla")]
     p, dt = run(cmd, cwd=wd, timeout=timeout, out=out,
-                env={"TRACE": trace,
+                env={"TRACE": trace, "EXPLAIN": "1" if explain else "0",
                      "JAVA_TOOL_OPTIONS": "-Xss1g -Xmx8g -Dtlc2.tool.queue.IStateQueue=StateDeque"})
     judged = []
     ok = False
@@ -361,6 +361,7 @@ def check(prop, tier, seed):
     skipped = 0
     case_by_key = {}
     nchunks = (len(cases) + chunk - 1) // chunk
+    explain = bool({"den", "oracle", "tri_oracle", "tri_both"} & set(spec["rules"]))
 
     def do_chunk(ci):
         """Stages B and C for one chunk of cases (chunks are independent: own files, own TLC)."""
@@ -405,7 +406,7 @@ def check(prop, tier, seed):
                 elif eng_case and ('"ev":"match"' in line or '"ev":"tri"' in line):
                     n_eng += 1
         # C. validate
-        judged, st = run_trace(wd, tpath, "trace-%03d" % ci)
+        judged, st = run_trace(wd, tpath, "trace-%03d" % ci, explain=explain)
         tcs = trace_cases(tpath)
         for j in judged:
             j["case"] = tcs.get(j.get("cl"))
@@ -540,7 +541,7 @@ def merge_ic(tpath, tpath2, tag="ic", load_ev="icload", reverse=False):
         raise ToolError("the two builds recorded a different number of cases")
     with open(tpath, "w") as f:
         for ca, cb in zip(a, b):
-            nobj = sum(1 for e in ca if e.get("ev") in ("opt", "alt", "reload"))
+            nobj = sum(1 for e in ca if e.get("ev") in ("opt", "alt", "reload", "reopt"))
             for e in ca:
                 f.write(json.dumps(e, separators=(",", ":")) + "\n")
             for e in cb[1:]:
